@@ -233,9 +233,17 @@ def run(chk):
                 stats["skipped_order_dependent_model"] += 1
                 continue
             if mod.get(("C", cid)) != gtxt:
-                tie_broken.append((p, cid, op, ctext, gtxt, mod.get(("C", cid)), "result differs"))
+                if inv:
+                    tie_broken.append((p, cid, op, ctext, gtxt, mod.get(("C", cid)), "result differs"))
+                else:
+                    # some input graph is outside the invariant (a perturbed graph, e.g. an edge key without a status
+                    # entry makes AddNode destructive and the Go result depend on map iteration order): the theorems
+                    # and the equality tie are about graphs inside Inv; counted, not an alarm
+                    stats["mismatch_outside_inv_not_alarmed"] += 1
             else:
                 stats["model_equal"] += 1
+                if not inv:
+                    stats["model_equal_outside_inv"] += 1
             if ("S", cid) in mod:
                 stats["spec_compared"] += 1
                 if mod[("S", cid)] != gtxt:
@@ -303,6 +311,9 @@ def run(chk):
         "graphs inside the invariant Inv (dom edges = dom status, endpoints present, flags non-empty, status >= intrinsic, closed along "
         "edges): %d captured graphs violated it" % stats["captured_graphs_violating_inv"],
         "Go map iteration order is modelled by an arbitrary reordering function; results are proved independent of it",
+        "the equality tie model == Go alarms only when every input graph of the case satisfies the model's inv_b (wf_b && closed_b, "
+        "printed per case by the driver); cases with an input outside Inv are compared and counted (model_equal_outside_inv / "
+        "mismatch_outside_inv_not_alarmed) but never alarm, because there Go's result may depend on map iteration order",
         "node identity: a node is its number; the intrinsic status is a function of the node kind (dumped per node)",
         "worklist permutations: block order and function order chosen by a seeded PRNG through the hook's re-implemented driver loops; "
         "summaries compared modulo node renaming by structural names",
